@@ -335,17 +335,21 @@ Definition send_gate (m : msg) (w : world) : M unit :=
     then raise XConn
   else ret tt.
 
-(* TestRequest gate, encode, write, drain, journal *)
-Definition send_tail (c : cfg) (m : msg) (w : world) : M unit :=
-  (match mkind m, treq w with
-   | KTestReq, None => raise XConn
-   | _, _ => ret tt
-   end) ;;;
+(* encode, write, drain, journal *)
+Definition send_write (c : cfg) (m : msg) : M unit :=
   sm <- encode c m ;;
   w1 <- getw ;;
   (if wr w1 then ret tt else raise XAttribute) ;;;      (* None.write(...) *)
   emit (Wire (snd sm)) ;;;
   persist_out (fst sm) (snd sm).
+
+(* TestRequest gate, then the write *)
+Definition send_tail (c : cfg) (m : msg) (w : world) : M unit :=
+  (match mkind m, treq w with
+   | KTestReq, None => raise XConn
+   | _, _ => ret tt
+   end) ;;;
+  send_write c m.
 
 Definition send_msg (c : cfg) (m : msg) : M unit :=
   w <- getw ;;
